@@ -32,7 +32,7 @@ OPTIONAL = ["ellipse_axis_radii", "circularity", "perimeter", "iou"]
 # initial state
 # ----------------------------------------------------------------------------------------
 def gen_config(rnd, *, seg=None, ndim=None, allow_optional=True, per_axis=True, allow_seg_axes=False,
-               max_frames=6) -> dict:
+               max_frames=6, big_frames=False) -> dict:
     ndim = ndim if ndim is not None else (4 if rnd.random() < 0.25 else 3)
     seg = seg if seg is not None else rnd.random() < 0.6
     r = rnd.random()
@@ -60,6 +60,8 @@ def gen_config(rnd, *, seg=None, ndim=None, allow_optional=True, per_axis=True, 
     }
     if seg:
         cfg["shape"] = [4, 6, 6] if ndim == 4 else rnd.choice([[8, 8], [9, 7], [10, 10]])
+        if big_frames and rnd.random() < 0.5:
+            cfg["shape"] = [5, 8, 9] if ndim == 4 else rnd.choice([[18, 17], [20, 12]])
         cfg["seg_dtype"] = rnd.choice(["int64", "int32", "uint16", "uint64", "uint32"])
         # the constructor accepts pos_attr=[axes] together with a segmentation (the computed
         # centroid replaces it) - the per-axis attributes then just stay on the nodes
